@@ -43,7 +43,43 @@ def stored_attrs(tree: ast.Module) -> Set[str]:
     return out
 
 
+def routine_effects(trees: List[ast.Module]) -> Dict[str, Set[str]]:
+    """routine NAME -> attribute names that a routine of that name (in any class or module of the program) may store to,
+    directly or through the routines it calls (resolved by name, so an over-approximation; names the program does not define
+    have no entry: library calls do not rebind attributes of the program's objects)."""
+    direct: Dict[str, Set[str]] = {}
+    calls: Dict[str, Set[str]] = {}
+    for tree in trees:
+        for fn in ast.walk(tree):
+            if isinstance(fn, (ast.FunctionDef, ast.AsyncFunctionDef)):
+                d = direct.setdefault(fn.name, set())
+                c = calls.setdefault(fn.name, set())
+                for x in ast.walk(fn):
+                    if isinstance(x, ast.Attribute) and isinstance(x.ctx, (ast.Store, ast.Del)):
+                        d.add(x.attr)
+                    elif isinstance(x, ast.Call):
+                        if isinstance(x.func, ast.Attribute):
+                            c.add(x.func.attr)
+                        elif isinstance(x.func, ast.Name):
+                            c.add(x.func.id)
+                    elif isinstance(x, ast.Attribute) and isinstance(x.ctx, ast.Load):
+                        c.add(x.attr)  # a property read runs its getter
+    # a class name called constructs: __init__ runs
+    changed = True
+    while changed:
+        changed = False
+        for n, cs in calls.items():
+            for m in cs:
+                extra = direct.get(m, set()) - direct[n]
+                if extra:
+                    direct[n] |= extra
+                    changed = True
+    return direct
+
+
 class _Fn:
+    effects: Dict[str, Set[str]] = {}
+
     def __init__(self, fn: ast.AST, unstable_attrs: Set[str], module_names: Set[str], keep: Set[str]) -> None:
         self.fn = fn
         self.unstable = unstable_attrs
@@ -105,7 +141,8 @@ class _Fn:
 
     def _nothing_rebinds(self, e: ast.Attribute) -> bool:
         """`root.a` (one level) where the program does store to an attribute `a` somewhere, but nothing this routine does can:
-        it has no store to an attribute of that name, calls no method on `root` and hands `root` to no call."""
+        it has no store to an attribute of that name, and no routine it calls on `root` or hands `root` to may store to one
+        (routine_effects, by name)."""
         if not isinstance(e.value, ast.Name):
             return False
         root = e.value.id
@@ -113,10 +150,14 @@ class _Fn:
             if isinstance(c, ast.Attribute) and c.attr == e.attr and isinstance(c.ctx, (ast.Store, ast.Del)):
                 return False
             if isinstance(c, ast.Call):
-                if isinstance(c.func, ast.Attribute) and isinstance(c.func.value, ast.Name) and c.func.value.id == root:
-                    return False
-                if any(isinstance(a, ast.Name) and a.id == root for a in list(c.args) + [k.value for k in c.keywords]):
-                    return False
+                callee = c.func.attr if isinstance(c.func, ast.Attribute) else c.func.id if isinstance(c.func, ast.Name) else None
+                on_root = isinstance(c.func, ast.Attribute) and isinstance(c.func.value, ast.Name) and c.func.value.id == root
+                gets_root = any(isinstance(a, ast.Name) and a.id == root for a in list(c.args) + [k.value for k in c.keywords])
+                if on_root or gets_root:
+                    # a routine that is handed `root`: by what routines of that name may store to (an unknown callee may do
+                    # anything when there is no table)
+                    if callee is None or not self.effects or e.attr in self.effects.get(callee, set()):
+                        return False
             if isinstance(c, (ast.Await, ast.Yield, ast.YieldFrom)):
                 return False
         return True
@@ -287,10 +328,11 @@ class _Replace(ast.NodeTransformer):
         return n
 
 
-def propagate_locals(tree: ast.Module, keep: Dict[str, Set[str]], unstable_attrs: Optional[Set[str]] = None) -> Tuple[int, List[str]]:
+def propagate_locals(tree: ast.Module, keep: Dict[str, Set[str]], unstable_attrs: Optional[Set[str]] = None, effects: Optional[Dict[str, Set[str]]] = None) -> Tuple[int, List[str]]:
     """Apply the normal form to every routine of the module.  `keep` maps a routine's qualified name to the locals that stay;
     `unstable_attrs` are the attribute names stored to anywhere in the program (the module's own when not given)."""
     unstable = stored_attrs(tree) if unstable_attrs is None else unstable_attrs
+    _Fn.effects = effects or {}
     module_names = {t.id for st in tree.body if isinstance(st, ast.Assign) for t in st.targets if isinstance(t, ast.Name)}
     count = 0
     names: List[str] = []
